@@ -24,6 +24,7 @@ import "encoding/binary"
 
 //@ func (*queue).put
 //@   requires wfQueue(q)
+//@   at call sync/atomic.AddInt64#0 check a0 == q.tail && qelem(q, *q.tail, 0) == e.seqID && qelem(q, *q.tail, 1) == e.offsetInShmBuf && qelem(q, *q.tail, 2) == e.status   // publication order: the slot is completely written when tail is advanced
 //@   assume   *q.tail < 4611686018427387904   // environment: the 64-bit logical index does not wrap (2^62 puts)
 //@   ensures  old(*q.tail - *q.head) >= q.cap ==> r0 == ErrQueueFull && *q.head == old(*q.head) && *q.tail == old(*q.tail)
 //@   ensures  old(*q.tail - *q.head) >= q.cap ==> unchanged(region(q.queueBytesOnMemory))
@@ -35,6 +36,7 @@ import "encoding/binary"
 
 //@ func (*queue).pop
 //@   requires wfQueue(q)
+//@   at call sync/atomic.AddInt64#0 check a0 == q.head && e.seqID == qelem(q, *q.head, 0) && e.offsetInShmBuf == qelem(q, *q.head, 1) && e.status == qelem(q, *q.head, 2)   // release order: the slot has been read completely when head is advanced
 //@   assume   *q.head < 4611686018427387904   // environment: the 64-bit logical index does not wrap
 //@   ensures  old(*q.head) < old(*q.tail) ==> err == nil && *q.head == old(*q.head) + 1 && *q.tail == old(*q.tail)
 //@   ensures  old(*q.head) < old(*q.tail) ==> e.seqID == old(qelem(q, *q.head, 0)) && e.offsetInShmBuf == old(qelem(q, *q.head, 1)) && e.status == old(qelem(q, *q.head, 2))
